@@ -171,3 +171,56 @@ impl Num for A32 {
         x
     }
 }
+
+/// An 8-byte hash-set value whose `Eq`/`Hash` look at `id` only (the `stamp` is ignored).
+#[repr(C)]
+#[derive(Copy, Clone, Default, Debug, Pod, Zeroable)]
+pub struct Ticket {
+    pub id: u32,
+    pub stamp: u32,
+}
+impl PartialEq for Ticket {
+    fn eq(&self, o: &Self) -> bool {
+        self.id == o.id
+    }
+}
+impl Eq for Ticket {}
+impl Hash for Ticket {
+    fn hash<H: Hasher>(&self, state: &mut H) {
+        self.id.hash(state)
+    }
+}
+impl Num for Ticket {
+    const SIZE: usize = 8;
+    const ALIGN: usize = 4;
+    const SIGNED: bool = false;
+    const NAME: &'static str = "ticket";
+    fn from_i(i: i128) -> Self {
+        Ticket { id: (i & 0xffff_ffff) as u32, stamp: ((i >> 32) & 0xffff_ffff) as u32 }
+    }
+    fn to_i(self) -> i128 {
+        (self.id as i128) | ((self.stamp as i128) << 32)
+    }
+}
+
+/// A value whose `Default` is not the all-zero bit pattern.
+#[repr(transparent)]
+#[derive(Copy, Clone, Debug, PartialEq, Eq, PartialOrd, Ord, Hash, Pod, Zeroable)]
+pub struct Bps(pub u32);
+impl Default for Bps {
+    fn default() -> Self {
+        Bps(10_000)
+    }
+}
+impl Num for Bps {
+    const SIZE: usize = 4;
+    const ALIGN: usize = 4;
+    const SIGNED: bool = false;
+    const NAME: &'static str = "bps";
+    fn from_i(i: i128) -> Self {
+        Bps(i as u32)
+    }
+    fn to_i(self) -> i128 {
+        self.0 as i128
+    }
+}
